@@ -238,94 +238,131 @@ func ruleX3(w *world.World, r *report.RuleResult) {
 		must bool // the function must contain deletions
 	}
 	for _, it := range []inst{{"sugardb.(*SugarDB).evictKeysWithExpiredTTL", true}, {"sugardb.(*SugarDB).getValues", true}, {"internal.FilterExpiredKeys", true}} {
-		fn := w.Func(it.fn)
-		if fn == nil {
+		top := w.Func(it.fn)
+		if top == nil {
 			r.Und(it.fn+"|anchor", "-", "function "+it.fn+" not found: the expiry-driven deletion sites cannot be located")
 			continue
 		}
-		egen := ec.edgeGen(fn, nil)
-		// a deadline is also known to be set (non-zero) on the non-zero edge of a zero test, and on the
-		// expired edge of the expiry helper (whose own zero handling is X1's helper-zero-deadline)
-		const factNonZero world.Facts = 1 << 22
-		gen := func(b *ssa.BasicBlock, si int) world.Facts {
-			f := egen(b, si)
-			iff := world.IfOf(b)
-			if iff == nil {
+		// the function that holds the deletion sites: the anchor itself, or - when the critical section
+		// was moved into a helper that takes the lock itself - the same-package helper it calls
+		fns := []*ssa.Function{top}
+		hasDeleter := func(f *ssa.Function) bool {
+			for _, c := range world.Calls(f) {
+				if _, ok := isDeleter(w, c); ok {
+					return true
+				}
+			}
+			return false
+		}
+		if it.must && !hasDeleter(top) {
+			seenH := map[*ssa.Function]bool{top: true}
+			var find func(f *ssa.Function, d int)
+			find = func(f *ssa.Function, d int) {
+				for _, c := range world.Calls(f) {
+					g := c.Common().StaticCallee()
+					if g == nil || seenH[g] || !world.InModule(g) || g.Blocks == nil || world.PkgOf(g) != world.PkgOf(top) {
+						continue
+					}
+					seenH[g] = true
+					if hasDeleter(g) {
+						fns = append(fns, g)
+					} else if d < 2 {
+						find(g, d+1)
+					}
+				}
+			}
+			find(top, 0)
+		}
+		total := 0
+		for _, fn := range fns {
+			egen := ec.edgeGen(fn, nil)
+			// a deadline is also known to be set (non-zero) on the non-zero edge of a zero test, and on the
+			// expired edge of the expiry helper (whose own zero handling is X1's helper-zero-deadline)
+			const factNonZero world.Facts = 1 << 22
+			gen := func(b *ssa.BasicBlock, si int) world.Facts {
+				f := egen(b, si)
+				iff := world.IfOf(b)
+				if iff == nil {
+					return f
+				}
+				if v, trueIsZero, ok := zeroTimeTest(world.CondValue(iff)); ok && derivesFrom(v, isExpireAtField, 0) && (si == 0) != trueIsZero {
+					f |= factNonZero
+				}
+				if f&factExpired != 0 && ec.viaHelper(world.CondValue(iff)) {
+					f |= factNonZero
+				}
 				return f
 			}
-			if v, trueIsZero, ok := zeroTimeTest(world.CondValue(iff)); ok && derivesFrom(v, isExpireAtField, 0) && (si == 0) != trueIsZero {
-				f |= factNonZero
+			// what was learnt about an entry holds only while the lock under which it was read is held:
+			// releasing a mutex forgets the expiry facts (decision and removal must be one critical section)
+			kill := func(in ssa.Instruction) world.Facts {
+				if c, ok := in.(*ssa.Call); ok {
+					if f := c.Call.StaticCallee(); f != nil {
+						switch f.String() {
+						case "(*sync.RWMutex).Unlock", "(*sync.RWMutex).RUnlock", "(*sync.Mutex).Unlock":
+							return factExpired | factAlive | factNonZero
+						}
+					}
+				}
+				return 0
 			}
-			if f&factExpired != 0 && ec.viaHelper(world.CondValue(iff)) {
-				f |= factNonZero
+			must := world.Must(fn, gen, nil, kill)
+			n := 0
+			check := func(in ssa.Instruction, what string) {
+				n++
+				key := fmt.Sprintf("%s|delete:%s", it.fn, what)
+				f := world.FactsAt(must, in, nil, kill)
+				if f&factExpired != 0 && f&factNonZero == 0 {
+					r.Fail(key, w.InstrPos(in), fmt.Sprintf("%s removes (or marks for removal) a key here on a path that tested 'deadline before now' but not that a deadline is set: the zero time is before every clock reading, so an entry without expiry (e.g. a value written over an expired, not yet collected key) is deleted by expiry", it.fn))
+					return
+				}
+				if f&factExpired != 0 {
+					r.OK(key, w.InstrPos(in), "removal reached only over the 'deadline is set and has passed' edges")
+				} else {
+					r.Fail(key, w.InstrPos(in), fmt.Sprintf("%s removes (or marks for removal) a key here on a path that did not establish that the key's deadline has passed: keys that have not expired, or have no expiry at all, are deleted", it.fn))
+				}
 			}
-			return f
-		}
-		// what was learnt about an entry holds only while the lock under which it was read is held:
-		// releasing a mutex forgets the expiry facts (decision and removal must be one critical section)
-		kill := func(in ssa.Instruction) world.Facts {
-			if c, ok := in.(*ssa.Call); ok {
-				if f := c.Call.StaticCallee(); f != nil {
-					switch f.String() {
-					case "(*sync.RWMutex).Unlock", "(*sync.RWMutex).RUnlock", "(*sync.Mutex).Unlock":
-						return factExpired | factAlive | factNonZero
+			for _, b := range fn.Blocks {
+				for _, in := range b.Instrs {
+					switch x := in.(type) {
+					case ssa.CallInstruction:
+						if name, ok := isDeleter(w, x); ok {
+							check(in, name)
+						}
+						if bi, ok := x.Common().Value.(*ssa.Builtin); ok && bi.Name() == "append" && it.fn == "internal.FilterExpiredKeys" {
+							check(in, "mark")
+						}
 					}
 				}
 			}
-			return 0
-		}
-		must := world.Must(fn, gen, nil, kill)
-		n := 0
-		check := func(in ssa.Instruction, what string) {
-			n++
-			key := fmt.Sprintf("%s|delete:%s", it.fn, what)
-			f := world.FactsAt(must, in, nil, kill)
-			if f&factExpired != 0 && f&factNonZero == 0 {
-				r.Fail(key, w.InstrPos(in), fmt.Sprintf("%s removes (or marks for removal) a key here on a path that tested 'deadline before now' but not that a deadline is set: the zero time is before every clock reading, so an entry without expiry (e.g. a value written over an expired, not yet collected key) is deleted by expiry", it.fn))
-				return
+			total += n
+			if fn != fns[len(fns)-1] {
+				continue
 			}
-			if f&factExpired != 0 {
-				r.OK(key, w.InstrPos(in), "removal reached only over the 'deadline is set and has passed' edges")
-			} else {
-				r.Fail(key, w.InstrPos(in), fmt.Sprintf("%s removes (or marks for removal) a key here on a path that did not establish that the key's deadline has passed: keys that have not expired, or have no expiry at all, are deleted", it.fn))
+			if total == 0 && it.must {
+				r.Fail(it.fn+"|delete", w.Pos(fn.Pos()), it.fn+" no longer removes expired keys at all")
 			}
-		}
-		for _, b := range fn.Blocks {
-			for _, in := range b.Instrs {
-				switch x := in.(type) {
-				case ssa.CallInstruction:
-					if name, ok := isDeleter(w, x); ok {
-						check(in, name)
-					}
-					if bi, ok := x.Common().Value.(*ssa.Builtin); ok && bi.Name() == "append" && it.fn == "internal.FilterExpiredKeys" {
-						check(in, "mark")
-					}
+			// per-database isolation of the marked keys: delete(state[db], key) must only see keys marked
+			// during the current iteration of the loop over databases
+			for _, c := range world.Calls(fn) {
+				bi, ok := c.Common().Value.(*ssa.Builtin)
+				if !ok || bi.Name() != "delete" || len(c.Common().Args) != 2 {
+					continue
 				}
-			}
-		}
-		if n == 0 && it.must {
-			r.Fail(it.fn+"|delete", w.Pos(fn.Pos()), it.fn+" no longer removes expired keys at all")
-		}
-		// per-database isolation of the marked keys: delete(state[db], key) must only see keys marked
-		// during the current iteration of the loop over databases
-		for _, c := range world.Calls(fn) {
-			bi, ok := c.Common().Value.(*ssa.Builtin)
-			if !ok || bi.Name() != "delete" || len(c.Common().Args) != 2 {
-				continue
-			}
-			lk, ok := c.Common().Args[0].(*ssa.Lookup)
-			if !ok {
-				continue
-			}
-			dbHdr := loopHeaderOf(lk.Index)
-			if dbHdr == nil {
-				continue
-			}
-			key := it.fn + "|delete-list-per-database"
-			if ph := carriedAcross(c.Common().Args[1], dbHdr); ph != nil {
-				r.Fail(key, w.InstrPos(c), it.fn+" deletes from one database keys that were marked while scanning another: the list of keys to delete lives across iterations of the loop over databases, so a live key is dropped from a later database when a key of the same name has expired in an earlier one")
-			} else {
-				r.OK(key, w.InstrPos(c), "the keys deleted from a database were all marked during that database's own iteration")
+				lk, ok := c.Common().Args[0].(*ssa.Lookup)
+				if !ok {
+					continue
+				}
+				dbHdr := loopHeaderOf(lk.Index)
+				if dbHdr == nil {
+					continue
+				}
+				key := it.fn + "|delete-list-per-database"
+				if ph := carriedAcross(c.Common().Args[1], dbHdr); ph != nil {
+					r.Fail(key, w.InstrPos(c), it.fn+" deletes from one database keys that were marked while scanning another: the list of keys to delete lives across iterations of the loop over databases, so a live key is dropped from a later database when a key of the same name has expired in an earlier one")
+				} else {
+					r.OK(key, w.InstrPos(c), "the keys deleted from a database were all marked during that database's own iteration")
+				}
 			}
 		}
 	}
@@ -1155,23 +1192,26 @@ func perDatabaseFields(w *world.World) []string {
 		return nil
 	}
 	var out []string
-	var walk func(prefix string, st *types.Struct)
-	walk = func(prefix string, st *types.Struct) {
+	var walk func(prefix string, st *types.Struct, d int)
+	walk = func(prefix string, st *types.Struct, d int) {
 		for i := 0; i < st.NumFields(); i++ {
 			f := st.Field(i)
 			switch t := f.Type().Underlying().(type) {
 			case *types.Map:
 				if b, ok := t.Key().Underlying().(*types.Basic); ok && b.Kind() == types.Int {
-					out = append(out, prefix+"."+f.Name())
+					out = append(out, prefix+"."+world.CanonField(f))
 				}
 			case *types.Struct:
-				if _, named := f.Type().(*types.Named); !named {
-					walk(prefix+"."+f.Name(), t)
+				// nested struct values: anonymous, or a named type of this package (an anonymous
+				// struct that was given a name)
+				nt, named := f.Type().(*types.Named)
+				if d < 3 && (!named || (nt.Obj().Pkg() == p.Types)) {
+					walk(prefix+"."+world.CanonField(f), t, d+1)
 				}
 			}
 		}
 	}
-	walk("sugardb.SugarDB", st)
+	walk("sugardb.SugarDB", st, 0)
 	return out
 }
 
@@ -1257,6 +1297,34 @@ func keepsValue(mu *ssa.MapUpdate) bool {
 	al, ok := u.X.(*ssa.Alloc)
 	if !ok {
 		return false
+	}
+	// entry := store[db][key]; entry.ExpireAt = x; store[db][key] = entry - the local is a copy of the
+	// stored entry and its Value field is never assigned
+	{
+		whole, valueAssigned := false, false
+		for _, ref := range *al.Referrers() {
+			switch x := ref.(type) {
+			case *ssa.Store:
+				if x.Addr == ssa.Value(al) {
+					if fromStoreEntry(x.Val) {
+						whole = true
+					} else {
+						valueAssigned = true
+					}
+				}
+			case *ssa.FieldAddr:
+				if world.FieldName(x) == "Value" && x.Referrers() != nil {
+					for _, r2 := range *x.Referrers() {
+						if _, ok := r2.(*ssa.Store); ok {
+							valueAssigned = true
+						}
+					}
+				}
+			}
+		}
+		if whole && !valueAssigned {
+			return true
+		}
 	}
 	for _, ref := range *al.Referrers() {
 		fa, ok := ref.(*ssa.FieldAddr)
